@@ -226,5 +226,7 @@ def fmt_atom(a):
             return "(%r)//%d" % (a[1], a[2])
         if a[0] == "mod":
             return "(%r)%%%d" % (a[1], a[2])
-        return a[0] + "(" + ",".join(fmt_atom(x) for x in a[1:]) + ")"
+        if isinstance(a[0], str):
+            return a[0] + "(" + ",".join(fmt_atom(x) for x in a[1:]) + ")"
+        return "(" + ",".join(fmt_atom(x) for x in a) + ")"
     return repr(a)
